@@ -7,7 +7,9 @@ pins, pin/wire position 0 is the least significant bit) -> Verilog source text.
 Options (chosen by the model): order ("asis" | "reversed" module order), ansi (bool: ANSI port
 declarations), positional (bool: positional port maps), concat (bool: always write per-bit
 concatenations instead of identifiers / part-selects), escaped (bool: escaped identifiers for
-instance and wire names), comments (bool), celldefine (bool: wrap leaf modules in `celldefine).
+instance and wire names), comments (bool), celldefine (bool: wrap leaf modules in `celldefine), grouped (bool: header-only style with ONE
+declaration for consecutive ports of the same direction and range: "input [1:0] p, q;"), escmod (bool: module
+names written as escaped identifiers, in the declaration and in every instantiation).
 """
 
 
@@ -31,6 +33,9 @@ def render(st, n, opts=None):
     def rng(width, lower):
         return "" if width == 1 and lower == 0 else "[%d:%d] " % (lower + width - 1, lower)
 
+    def modname(name):
+        return ("\\" + name + " ") if opts.get("escmod") else name
+
     libs = st["nlLibs"][n - 1]
     defs = [d for lib in libs for d in st["libDefs"][lib - 1]
             if not st["defData"][d - 1]["name"].startswith("SDN_VERILOG_ASSIGNMENT")]
@@ -50,16 +55,27 @@ def render(st, n, opts=None):
         if is_leaf and opts.get("celldefine"):
             w("`celldefine")
         decls = []
+        heads = []
         for p in ports:
             a = st["portAttr"][p - 1]
+            heads.append("%s %s" % (DIRW[a["dir"]], rng(len(st["portPins"][p - 1]), a["lower"])))
             decls.append("%s %s%s" % (DIRW[a["dir"]], rng(len(st["portPins"][p - 1]), a["lower"]),
                                       ident(st["portData"][p - 1]["name"], False)))
         if opts.get("ansi"):
-            w("module %s(%s);" % (dname, ", ".join(decls)))
+            w("module %s(%s);" % (modname(dname), ", ".join(decls)))
         else:
-            w("module %s(%s);" % (dname, ", ".join(ident(x, False) for x in port_names)))
-            for dd in decls:
-                w("  %s;" % dd)
+            w("module %s(%s);" % (modname(dname), ", ".join(ident(x, False) for x in port_names)))
+            if opts.get("grouped"):
+                j = 0
+                while j < len(ports):
+                    k = j
+                    while k + 1 < len(ports) and heads[k + 1] == heads[j]:
+                        k += 1
+                    w("  %s%s;" % (heads[j], ", ".join(ident(x, False) for x in port_names[j:k + 1])))
+                    j = k + 1
+            else:
+                for dd in decls:
+                    w("  %s;" % dd)
         cab_of_wire = {}
         for c in cables:
             cname = st["cabData"][c - 1]["name"]
@@ -125,7 +141,7 @@ def render(st, n, opts=None):
                 args = ", ".join(".%s(%s)" % (ident(pn, False), e) for pn, e in conns)
             ik = st["instData"][i - 1].get("k", "")
             ip = st["instData"][i - 1].get("props", "")
-            w("  %s%s %s%s(%s);" % (('(* A = "%s" *) ' % ik) if ik else "", st["defData"][r - 1]["name"],
+            w("  %s%s %s%s(%s);" % (('(* A = "%s" *) ' % ik) if ik else "", modname(st["defData"][r - 1]["name"]),
                                   ("#(.P(%s)) " % ip) if ip else "", ident(st["instData"][i - 1]["name"]), args))
         w("endmodule")
         if is_leaf and opts.get("celldefine"):
